@@ -148,12 +148,31 @@ def execute(h):
         except ValueError:
             violate('directory', 'get_unit_by_symbol_fails', step,
                     symbol=sym, type=mu['type'])
-        # factory dispatch
-        for how, fn in (('number_and_unit', lambda: Quantity(3, u)),
-                        ('string', lambda: Quantity(f"3 {sym}")),
-                        ('own_class_string', lambda: cls(f"3 {sym}")),
-                        ('string_spaced', lambda: Quantity(f"  3  {sym} ")),
-                        ('own_class_number', lambda: cls(3, u))):
+        # ... and by no other type
+        other = model.order[(step + len(sym)) % len(model.order)]
+        if other != mu['type']:
+            ocls = env.types[other]
+            if sym in ocls:
+                violate('directory', 'listed_by_other_type', step,
+                        symbol=sym, type=mu['type'], other=other)
+            try:
+                ocls.get_unit_by_symbol(sym)
+            except ValueError:
+                pass
+            else:
+                violate('directory', 'found_in_other_type', step,
+                        symbol=sym, type=mu['type'], other=other)
+        # factory dispatch (amounts in every spelling a user may write)
+        from decimalfp import Decimal
+        amt_s = ['3', '2.5', '7/3', '-1', '1e3'][(step + len(sym)) % 5]
+        amt_n = [3, 2.5, Fraction(7, 3), Decimal('-1.5'),
+                 '12'][(step + len(sym)) % 5]
+        for how, fn in (('number_and_unit', lambda: Quantity(amt_n, u)),
+                        ('string', lambda: Quantity(f"{amt_s} {sym}")),
+                        ('own_class_string', lambda: cls(f"{amt_s} {sym}")),
+                        ('string_spaced',
+                         lambda: Quantity(f"  {amt_s}  {sym} ")),
+                        ('own_class_number', lambda: cls(amt_n, u))):
             try:
                 q = fn()
             except Exception as e:      # noqa
@@ -253,6 +272,16 @@ def execute(h):
             except Exception as e:      # noqa
                 violate('directory', 'query_raised', step, type=tn,
                         observed=type(e).__name__)
+        # an undeclared symbol is unknown
+        try:
+            Unit('no such unit')
+        except ValueError:
+            pass
+        except Exception as e:      # noqa
+            violate('directory', 'unknown_symbol_other_exception', step,
+                    observed=type(e).__name__)
+        else:
+            violate('directory', 'unknown_symbol_found', step)
         # the base type lists nothing and is nobody's type
         try:
             got = [u.symbol for u in Quantity.units()]
